@@ -15,7 +15,13 @@
    waits for a handshake, one goroutine per accepted connection) has its own
    non-interference theorems below; they are tied to the code by runs against a
    real TLS listener and a real DTLS-PSK listener with peers that stall in their
-   handshake (TlsRun cases). *)
+   handshake (TlsRun cases).
+   Round 2: the discovery table holds exactly the requests in progress (a request
+   whose datagram cannot be sent leaves no trace), and the keep-alive level
+   (Server/KeepAlive.v): a server with options.WithKeepAlive is a table of C18's
+   single-connection machines, one per connection; non-interference between the
+   connections for all histories, tied to the code by runs of real udp and tcp
+   servers with several peers on a virtual clock (KaRun cases). *)
 From Coq Require Import ZArith List Bool.
 From GoCoap Require Import Base.Bytes Dedup.Model Server.Model Server.Proofs Server.AcceptProofs.
 From GoCoap Require Monitor.Model Monitor.Spec Monitor.Proofs.
